@@ -118,6 +118,15 @@ func c09Judge1(r *core.Run, family, expr string, d any, docText string, spec str
 	return nil
 }
 
+var c09Thorough bool
+
+func c09Lengths() []int {
+	if c09Thorough {
+		return []int{0, 1, 3, 8, 21}
+	}
+	return []int{0, 1, 3, 8}
+}
+
 func c09Ints(n int) []string {
 	seen := map[string]bool{}
 	var out []string
@@ -130,6 +139,11 @@ func c09Ints(n int) []string {
 	}
 	for _, v := range []int64{0, 1, -1, 2, -2, int64(n) - 1, int64(n), int64(n) + 1, 1 << 15, -(1 << 15), 1 << 31, -(1 << 31), 1 << 62, -(1 << 62), math.MaxInt64, math.MinInt64} {
 		add(v)
+	}
+	if c09Thorough {
+		for _, v := range []int64{3, -3, int64(n) / 2, -int64(n), -int64(n) - 1, 1 << 32, -(1 << 32), 1 << 53, math.MaxInt64 - 1, math.MinInt64 + 1} {
+			add(v)
+		}
 	}
 	return out
 }
@@ -154,9 +168,10 @@ func c09RunMagnitude(r *core.Run) {
 		r.InternalError("C09 needs the instrumented build")
 		return
 	}
+	c09Thorough = r.Thorough()
 	r.Bound("tick_budget", c09TickBudget)
 	r.Bound("integer_alphabet", c09Ints(8))
-	r.Bound("lengths", []int{0, 1, 3, 8})
+	r.Bound("lengths", c09Lengths())
 	item := 0
 	c09MagnitudeSpace(func(family, expr, spec string) {
 		item++
@@ -177,7 +192,7 @@ func c09RunMagnitude(r *core.Run) {
 
 // c09MagnitudeSpace enumerates the integer-magnitude space: every (family, expression, document specification).
 func c09MagnitudeSpace(do func(family, expr, spec string)) {
-	for _, n := range []int{0, 1, 3, 8} {
+	for _, n := range c09Lengths() {
 		ints := c09Ints(n)
 		for _, kind := range []string{"array", "ascii", "mixed"} {
 			d, dt := "subject:"+kind+":"+strconv.Itoa(n), ""
@@ -359,13 +374,103 @@ func c09Families() []c09Family {
 		fam("string-slice-step", "[::2]", mixed), fam("string-slice-neg", "[::-2]", mixed), fam("string-trim", "trim(@, 'ab')", str), fam("string-upper", "upper(@)", str), fam("string-pad", "pad_left(@, `8192`, '-')", str),
 		fam("string-contains", "contains(@, 'zz')", str), fam("string-starts", "starts_with(@, 'ab')", str), fam("string-join-chars", "join('', split(@, ''))", mixed), fam("string-to_number", "to_number(@)", func(n int) any { return rep("7", n) }),
 		fam("string-sort-chars", "sort(split(@, ''))", mixed),
+		// round three
+		fam("filter-nested", "[?a[?@ > `0`]].s", objs), fam("sort_by-strings", "sort_by(@, &s)[*].k", objs), fam("group_by-all-distinct", "group_by(@, &s) | length(@)", objs), fam("min_by", "min_by(@, &k).s", objs),
+		fam("let-in-projection", "[*].[let $v = @ in $v.k]", objs), fam("map-abs", "map(&abs(@), @)", arr), fam("keys-sorted", "sort(keys(@))", func(n int) any { return bigObj(n, 0) }), fam("object-projection-field", "*.k", func(n int) any {
+			m := map[string]any{}
+			for i := 0; i < n; i++ {
+				m["o"+strconv.Itoa(i)] = map[string]any{"k": num(i)}
+			}
+			return m
+		}),
+		fam("contains-string-array", "contains([*].s, 'nomatch')", objs), fam("arith-in-projection", "[*].(k * `2` + `1`)", objs), fam("compare-in-filter", "[?k >= `0` && k < `100000`] | length(@)", objs), fam("pipe-after-projection", "[*].k | sort(@) | [0]", objs),
+		fam("flatten-twice", "[*].[a, a][][]", objs), fam("to_number-map", "map(&to_number(@), [*].s)", objs), fam("not-in-filter", "[?!(k == `1`)] | length(@)", objs), fam("index-in-projection", "[*].a[0]", objs), fam("slice-in-projection", "[*].a[::-1]", objs),
+		fam("string-ends", "ends_with(@, 'zz')", str), fam("string-lower", "lower(@)", str), fam("string-trim_left", "trim_left(@)", func(n int) any { return rep(" ", n) + "x" }), fam("string-trim_right", "trim_right(@)", func(n int) any { return "x" + rep(" ", n) }),
+		fam("string-replace-empty", "replace(@, '', '-')", mixed), fam("string-replace-all-matches", "replace(@, 'a', '')", func(n int) any { return rep("a", n) }), fam("string-find-overlap", "find_last(@, 'aab')", func(n int) any { return rep("a", n) }),
+		fam("string-split-no-match", "split(@, 'nomatch')", str), fam("string-split-all-separators", "split(@, ',')", func(n int) any { return rep(",", n) }), fam("string-pad-right", "pad_right(@, `100`)", str), fam("string-equal", "@ == @", str),
+		fam("string-compare", "[@ < @, @ >= @]", str), fam("string-to_array", "to_array(@)", str), fam("string-join-self", "join(@, ['a', 'b', 'c'])", str),
+		{"literal-array", func(n int) (string, any) {
+			var b strings.Builder
+			b.WriteString("`[")
+			for i := 0; i < n; i++ {
+				if i > 0 {
+					b.WriteString(",")
+				}
+				b.WriteString(strconv.Itoa(i))
+			}
+			return b.String() + "]`", nil
+		}},
+		{"literal-object", func(n int) (string, any) {
+			var b strings.Builder
+			b.WriteString("`{")
+			for i := 0; i < n; i++ {
+				if i > 0 {
+					b.WriteString(",")
+				}
+				fmt.Fprintf(&b, `"k%d":%d`, i, i)
+			}
+			return b.String() + "}`", nil
+		}},
+		{"literal-nested", func(n int) (string, any) { return "`" + rep("[", n) + rep("]", n) + "`", nil }},
+		{"literal-string-escapes", func(n int) (string, any) { return "`\"" + rep("\\u00e9\\n", n) + "\"`", nil }},
+		{"raw-string", func(n int) (string, any) { return "'" + rep("a\\'", n) + "'", nil }},
+		{"quoted-identifier", func(n int) (string, any) { return "\"" + rep("a\\u00e9", n) + "\"", map[string]any{} }},
+		{"long-identifier", func(n int) (string, any) { return rep("a", n), map[string]any{} }},
+		{"whitespace", func(n int) (string, any) { return rep(" ", n) + "a" + rep("\n", n), map[string]any{"a": num(1)} }},
+		{"expr-compare-chain", func(n int) (string, any) { return "a" + rep(" == a", n), map[string]any{"a": num(1)} }},
+		{"expr-ands", func(n int) (string, any) { return "a" + rep(" && a", n), map[string]any{"a": num(1)} }},
+		{"expr-mul-chain", func(n int) (string, any) { return "a" + rep(" * a", n), map[string]any{"a": num(1)} }},
+		{"expr-merge-args", func(n int) (string, any) {
+			return "merge(a" + rep(", a", n) + ")", map[string]any{"a": map[string]any{"k": num(1)}}
+		}},
+		{"expr-zip-args", func(n int) (string, any) {
+			return "zip(a" + rep(", a", n) + ")", map[string]any{"a": []any{num(1), num(2)}}
+		}},
+		{"expr-multi-hash-of-lists", func(n int) (string, any) {
+			var b strings.Builder
+			for i := 0; i < n/4+1; i++ {
+				fmt.Fprintf(&b, "k%d: [a, a], ", i)
+			}
+			return "{" + b.String() + "z: a}", map[string]any{"a": num(1)}
+		}},
+		{"expr-exprefs", func(n int) (string, any) {
+			return rep("map(&", n/16+1) + "@" + rep(", [a])", n/16+1), map[string]any{"a": num(1)}
+		}},
+		{"deep-document-path", func(n int) (string, any) {
+			var d any = num(1)
+			for i := 0; i < n; i++ {
+				d = map[string]any{"a": d}
+			}
+			return "a" + rep(".a", n-1), d
+		}},
+		{"deep-document-flatten", func(n int) (string, any) {
+			var d any = []any{num(1)}
+			for i := 0; i < n; i++ {
+				d = []any{d}
+			}
+			return "@" + rep("[]", n), d
+		}},
+		{"deep-document-equal", func(n int) (string, any) {
+			var d any = []any{num(1)}
+			for i := 0; i < n; i++ {
+				d = []any{d}
+			}
+			return "@ == @", d
+		}},
+		{"deep-document-to_string", func(n int) (string, any) {
+			var d any = []any{num(1)}
+			for i := 0; i < n; i++ {
+				d = []any{d}
+			}
+			return "to_string(@) | length(@)", d
+		}},
 	}
 }
 
 func c09GrowthCheck(r *core.Run, f c09Family, thorough bool) *core.Violation {
 	maxN := 4096
 	if thorough {
-		maxN = 32768
+		maxN = 131072
 	}
 	var prev int64
 	var prevN int
@@ -404,7 +509,7 @@ func c09RunGrowth(r *core.Run) {
 	}
 	fams := c09Families()
 	r.Bound("growth_families", len(fams))
-	r.Bound("growth_sizes", "64, 128, ..., 4096 (thorough: 32768)")
+	r.Bound("growth_sizes", "64, 128, ..., 4096 (thorough: 131072)")
 	for i, f := range fams {
 		if !r.Mine(i) {
 			continue
@@ -430,11 +535,12 @@ func c09Judge(r *core.Run, phase string, pt map[string]any) *core.Violation {
 		name := strings.TrimPrefix(strings.Fields(e)[0], "family:")
 		for _, f := range c09Families() {
 			if f.Name == name {
-				return c09GrowthCheck(r, f, false)
+				return c09GrowthCheck(r, f, r.Thorough())
 			}
 		}
 		return nil
 	}
+	c09Thorough = r.Thorough()
 	d, dt := c09Doc(pstr(pt, "spec"))
 	return c09Judge1(r, pstr(pt, "family"), e, d, dt, pstr(pt, "spec"))
 }
